@@ -497,6 +497,11 @@ def _set_allocations_for_consumer(req, schema):
             'allocate: %(error)s' % {'error': exc},
             comment=errors.CONCURRENT_UPDATE)
 
+    if created_new_consumer and not allocation_objects:
+        # An empty set of allocations for a consumer that did not exist yet
+        # writes nothing: do not keep the consumer record created for it.
+        delete_consumers([consumer])
+
     req.response.status = 204
     req.response.content_type = None
     return req.response
@@ -609,6 +614,11 @@ def set_allocations(req):
             'Inventory and/or allocations changed while attempting to '
             'allocate: %(error)s' % {'error': exc},
             comment=errors.CONCURRENT_UPDATE)
+
+    # An empty set of allocations for a consumer that did not exist yet writes
+    # nothing: do not keep the consumer records created for such entries.
+    delete_consumers([consumer for consumer in new_consumers_created
+                      if not data[consumer.uuid]['allocations']])
 
     req.response.status = 204
     req.response.content_type = None
